@@ -52,7 +52,7 @@ static const double Q16 = 1.0 / 65536.0;
 
 struct Stats {
 	uint64_t calls, parts, cut, trim, both, shared, hidden, capped, join_ok, join_ref, join_spur, cxx_parts, poly_parts, poly_fail;
-	uint64_t pair_unequal, pair_same_segment_ok, lost_crossings, pair_frac_checked, pair_frac_undefined, pair_frac_differ, hist_reset, pair_parts, pair_cut_and_trim2, pair_hidden_by_second, pair_poly_parts, pair_hist;
+	uint64_t nolist_points, nolist_split, pair_gap, pair_unequal, pair_same_segment_ok, lost_crossings, pair_frac_checked, pair_frac_undefined, pair_frac_differ, hist_reset, pair_parts, pair_cut_and_trim2, pair_hidden_by_second, pair_poly_parts, pair_hist;
 	uint64_t nontrivial;
 };
 
@@ -390,6 +390,35 @@ static void drive_cxx(Case &c, bool with_poly)
 	}
 }
 
+// apply_data() without a part list ("no visibility information", NULL range): the run is cut into 65535-point parts internally,
+// every point of every dimension must be consumed exactly once.  Returns false when a violation was reported.
+static bool nolist_check(Run &r, Stats &st, const double *v, size_t n, const char *suffix, const std::function<std::string()> &describe)
+{
+	mpt::layout::graph::transform3 tr;
+	setup_tr(tr, RNG[3], 2);
+	std::vector<double> w(n);
+	for (size_t i = 0; i < n; ++i) w[i] = 7 - v[i] + (double) (i % 3);
+	mpt::value_store vs[2];
+	if (!vs[0].set(mpt::span<const double>(v, n)) || !vs[1].set(mpt::span<const double>(w.data(), n))) { r.count("polyline_store_failed"); return true; }
+	mpt::point<double> *dest = (mpt::point<double> *) malloc(n * sizeof(*dest));
+	for (size_t i = 0; i < n; ++i) dest[i] = mpt::point<double>(0, 0);
+	r.hint("apply-data-nolist");
+	int proc = mpt::apply_data(dest, mpt::span<const linepart>(0, (long) n), tr, mpt::span<const mpt::value_store>(vs, 2));
+	++r.transitions;
+	bool ok = true;
+	std::string sig = std::string("apply-data-nolist|");
+	if (asan_error()) { r.violation(sig + "memory|asan" + suffix, "data " + describe() + ": apply_data() without part list accesses memory outside its arrays"); ok = false; }
+	else if (proc != 2) { r.violation(sig + "refused|-" + suffix, "data " + describe() + fmt(": apply_data() processed %d of 2 dimensions", proc)); ok = false; }
+	else for (size_t i = 0; i < n; ++i) {
+		if (dest[i].x == v[i] && dest[i].y == w[i]) continue;
+		r.violation(sig + "point-not-consumed|dimension-" + (dest[i].x != v[i] ? "0" : "1") + suffix, "data " + describe() + fmt(": %zu points without part list, point %zu is (%.17g,%.17g), values are (%.17g,%.17g)", n, i, dest[i].x, dest[i].y, v[i], w[i]));
+		ok = false; break;
+	}
+	if (ok) { st.nolist_points += n; if (n > UINT16_MAX) ++st.nolist_split; }
+	free(dest);
+	return ok;
+}
+
 // everything for one input
 static void run_case(Run &r, Stats &st, const Rng &g, const double *v, size_t n, const std::function<std::string()> &desc, bool is_long, bool tiny_windows = true)
 {
@@ -413,6 +442,7 @@ static void run_case(Run &r, Stats &st, const Rng &g, const double *v, size_t n,
 		if (!c.judge("join", js, false)) return;
 	}
 	drive_cxx(c, true);
+	if (!c.bad && g.null && n) nolist_check(r, st, v, n, c.suffix, desc);
 }
 
 // ------------------------------------------------------------------ job: sequences
@@ -489,7 +519,7 @@ static bool check_parts2(const double *x, const double *y, size_t n, const linep
 		if (!p.raw) { o.kind = "no-progress"; o.cls = "raw=0"; o.detail = fmt("part %zu at %zu is %s", k, pos, part_str(p).c_str()); return false; }
 		if (p.raw > n - pos || p.usr > n - pos) { o.kind = "overrun"; o.cls = p.raw > n - pos ? "raw>available" : "usr>available"; o.detail = fmt("part %zu at %zu is %s, %zu values remain", k, pos, part_str(p).c_str(), n - pos); return false; }
 		unsigned c = p._cut ? 1 : 0, t = p._trim ? 1 : 0;
-		if (p.usr < c + t) { o.kind = "flag-without-points"; o.cls = c ? "cut" : "trim"; o.detail = fmt("part %zu at %zu %s has a cut/trim mark but no drawn point to carry it", k, pos, part_str(p).c_str()); return false; }
+		if ((c || t) && p.usr < 2) { o.kind = "flag-without-points"; o.cls = c ? "cut" : "trim"; o.detail = fmt("part %zu at %zu %s has a cut/trim mark but not the two drawn elements of the segment it belongs to", k, pos, part_str(p).c_str()); return false; }
 		// stored fractions of a merged part: the drawn end point must be inside every range and on the boundary of at least one,
 		// i.e. the decoded value is the largest of the per-dimension crossings of that segment, each computed from the raw values
 		// (a dimension whose end value is in range does not constrain; undefined when a dimension is out of range at both ends)
@@ -638,6 +668,47 @@ static void pair_case(Run &r, Stats &st, const double *lx, size_t nx, const doub
 	if (seen != visible) { fail("pair-polyline", "inrange-not-drawn", "iterator", fmt("iterating the parts shows %zu of %zu values visible in both dimensions", seen, visible)); return; }
 	st.pair_poly_parts += ps.size();
 	if (visible && hidden2) ++st.nontrivial;
+	// three dimensions, the middle store has no double data (empty, or float values) and is skipped by the library:
+	// x in dimension 0 and y in dimension 2 must still both be range-checked, the parts are the same as for (x, y)
+	if (nx != ny || n > 4) return;
+	for (int variant = 0; variant < (n <= 3 ? 2 : 1); ++variant) {
+		const char *drv = variant ? "pair-polyline-gap-float" : "pair-polyline-gap-empty";
+		r.hint(drv);
+		mpt::layout::graph::transform3 t3;
+		setup_tr(t3, RNG[0], 1);
+		t3._dim[1]._flags = mpt::TransformLimit; { struct mpt::range lim(100, 200); t3._dim[1].limit = lim; }   // would hide everything if it were applied to y
+		t3._dim[2]._flags = mpt::TransformLimit; { struct mpt::range lim(RNG[1].min, RNG[1].max); t3._dim[2].limit = lim; }
+		t3._dim[2].scale = 1; t3._dim[2].add = 0; t3._dim[2].to = mpt::fpoint(0, 1);
+		mpt::value_store v3[3];
+		static const float fl[4] = {150, 150, 150, 150};
+		if (!v3[0].set(sx) || !v3[2].set(sy) || (variant && !v3[1].set(mpt::span<const float>(fl, (long) n)))) { r.count("polyline_store_failed"); return; }
+		mpt::polyline p3;
+		ok = p3.set(t3, mpt::span<const mpt::value_store>(v3, 3));
+		++r.transitions;
+		if (!ok) {
+			if (asan_error()) { fail(drv, "memory", "asan", "access outside the value arrays (AddressSanitizer)"); return; }
+			if (visible) { fail(drv, "refused", "visible-points", fmt("set() failed although %zu values are in range in both dimensions", visible)); return; }
+			continue;
+		}
+		sp = p3.parts();
+		ps.assign(sp.begin(), sp.begin() + sp.size());
+		if (!judge(drv, false)) return;
+		size_t pos3 = 0, seen3 = 0; k = 0;
+		for (mpt::polyline::iterator it = p3.begin(); it != p3.end() && k < ps.size(); ++it, ++k) {
+			mpt::span<const mpt::polyline::point> in = (*it).points();
+			const linepart &p = ps[k];
+			size_t f = p._cut ? 1 : 0, want = p.usr - f - (p._trim ? 1 : 0);
+			if ((size_t) in.size() != want) { fail(drv, "length", "points", fmt("part %zu points() has %ld points for %s", k, (long) in.size(), part_str(p).c_str())); return; }
+			for (size_t i = 0; i < want; ++i, ++seen3) {
+				size_t idx = pos3 + f + i;
+				if (in.begin()[i].x != x[idx] || in.begin()[i].y != y[idx]) { fail(drv, "point-value", "in-range", fmt("part %zu drawn point %zu is (%.17g,%.17g), values are (%.17g,%.17g)", k, i, in.begin()[i].x, in.begin()[i].y, x[idx], y[idx])); return; }
+			}
+			pos3 += p.raw;
+		}
+		if (asan_error()) { fail(drv, "memory", "asan", "walking the polyline accesses memory outside its arrays"); return; }
+		if (seen3 != visible) { fail(drv, "inrange-not-drawn", "iterator", fmt("iterating the parts shows %zu of %zu values visible in both dimensions", seen3, visible)); return; }
+		if (hidden2) ++st.pair_gap;
+	}
 }
 struct PairJob { int nx, ny; int p; };
 static void pair_body(Run &r, Stats &st, const PairJob &j, Ctx &x)
@@ -747,6 +818,13 @@ static void code_job(Run &r, Stats &st)
 		if (!ok || lr != len || lu != len || a.length() != cnt) r.violation("array-set|length|recount", fmt("set(-1) after set(%ld): length_raw()=%ld length_user()=%ld", len, lr, lu));
 		else ++st.nontrivial;
 	}
+	// apply_data() without part list: lengths around one, two and three times the 65535 limit
+	const size_t nl[] = {1, 2, 65534, 65535, 65536, 131069, 131070, 131071, 131072, 196605, 196606, 200000};
+	for (size_t n : nl) {
+		std::vector<double> v(n); for (size_t i = 0; i < n; ++i) v[i] = (double) (i % 5);
+		++r.states;
+		nolist_check(r, st, v.data(), n, "|grid", [&]() { return fmt("[%zu values 0,1,2,3,4,0,...]", n); });
+	}
 	if (asan_error()) r.violation("code|memory|asan", "AddressSanitizer report in the code/array-set grid");
 }
 
@@ -821,6 +899,7 @@ static void flush_stats(Run &r, const Stats &st)
 	r.count("pair_inputs_hidden_only_by_second_dimension", st.pair_hidden_by_second); r.count("pair_polyline_parts", st.pair_poly_parts); r.count("pair_history_reset_with_usr!=raw", st.pair_hist);
 	r.count("pair_inputs_with_dimensions_of_different_length", st.pair_unequal); r.count("pair_parts_cut_and_trim_on_one_segment_nonempty", st.pair_same_segment_ok);
 	r.count("crossings_next_to_a_drawn_point_without_fraction(part limit; not flagged)", st.lost_crossings);
+	r.count("nolist_points_applied", st.nolist_points); r.count("nolist_runs_longer_than_65535", st.nolist_split); r.count("pair_polyline_skipped_middle_store_second_dimension_hides", st.pair_gap);
 	r.count("pair_fractions_checked", st.pair_frac_checked); r.count("pair_fractions_two_dimensions_cross_differently", st.pair_frac_differ); r.count("pair_fractions_undefined(not judged)", st.pair_frac_undefined);
 	r.count("cxx_array_parts", st.cxx_parts); r.count("polyline_parts", st.poly_parts); r.count("polyline_nothing_visible", st.poly_fail);
 }
@@ -830,7 +909,8 @@ void mc_explore(Run &r, const std::string &job)
 	for (const char *k : {"nontrivial", "parts_cut_only", "parts_trim_only", "parts_cut_and_trim", "parts_shared_endpoint(usr=raw+1)", "parts_with_hidden_values(usr<raw)",
 	                      "parts_at_limit(raw=65535)", "join_merged", "join_refused", "cxx_array_parts", "polyline_parts",
 	                      "array_history_reset_with_usr!=raw", "pair_parts", "pair_parts_cut_and_trim_usr=2", "pair_inputs_hidden_only_by_second_dimension", "pair_polyline_parts", "pair_history_reset_with_usr!=raw", "pair_fractions_checked", "pair_fractions_two_dimensions_cross_differently",
-	                      "pair_inputs_with_dimensions_of_different_length", "pair_parts_cut_and_trim_on_one_segment_nonempty"}) r.require(k);
+	                      "pair_inputs_with_dimensions_of_different_length", "pair_parts_cut_and_trim_on_one_segment_nonempty",
+	                      "nolist_points_applied", "nolist_runs_longer_than_65535", "pair_polyline_skipped_middle_store_second_dimension_hides"}) r.require(k);
 	if (job == "codes") { r.additive = true; r.enter(Vec(), "code"); code_job(r, st); ++r.executions; }
 	else dfs(r, [&](Ctx &x) { body(r, st, job, x); });
 	flush_stats(r, st);
